@@ -1,4 +1,685 @@
-(* Proofs/Edit.v *)
+(* Proofs/Edit.v: get / set / push / pop / resize / reserve / shrink_to_fit / zeros / ones.
+   Storage facts are stated on the raw value; resize is decomposed into three bit-range
+   operations (or_bits_spec, fill_bits, mask_bits). *)
 From BVA Require Import Base.Prelude Base.Result Base.Words Base.Limbs.
 From BVA Require Import Model.Core Model.Ops Model.Arith Model.Conv Model.Auto Spec.Spec Proofs.Common.
 From Coq Require Import ZifyBool ZifyN ZifyNat.
+
+(* ------------------------------------------------------------------ arithmetic helpers *)
+
+(* let lia see through division and modulo by literals *)
+#[local] Ltac Zify.zify_post_hook ::= Z.div_mod_to_equations.
+
+Lemma cfbl_d_eq' len : cfbl_d len = (len + 63) / 64.
+Proof. unfold cfbl_d, cfbyl_d. lia. Qed.
+
+Lemma cfbl_d_f len : cfbl_d len = cfbl_f 64 len.
+Proof. rewrite cfbl_d_eq'. unfold cfbl_f. replace (len + 64 - 1) with (len + 63) by lia. reflexivity. Qed.
+
+Lemma cfbl_d_ge len : len <= 64 * cfbl_d len.
+Proof. rewrite cfbl_d_eq'. lia. Qed.
+
+Lemma cfbl_d_le len n : len <= 64 * n -> cfbl_d len <= n.
+Proof. intros H. rewrite cfbl_d_eq'. lia. Qed.
+
+Lemma testbit_1 j : N.testbit 1 j = (j =? 0).
+Proof.
+  change 1 with (N.ones 1). rewrite ones_testbit.
+  destruct (N.ltb_spec j 1); destruct (N.eqb_spec j 0); try reflexivity; lia.
+Qed.
+
+Lemma testbit_bit b j : b <= 1 -> N.testbit b j = (b =? 1) && (j =? 0).
+Proof.
+  intros H. assert (b = 0 \/ b = 1) as [-> | ->] by lia.
+  - rewrite N.bits_0. reflexivity.
+  - rewrite testbit_1. reflexivity.
+Qed.
+
+Lemma land_1_bit x : N.land x 1 = N.b2n (N.testbit x 0).
+Proof. change 1 with (N.ones 1). rewrite N.land_ones. change (2 ^ 1) with 2. symmetry. apply N.bit0_mod. Qed.
+
+Lemma ones_concat a b : N.ones a + 2 ^ a * N.ones b = N.ones (a + b).
+Proof.
+  rewrite !ones_eq, pow2_add. pose proof (pow2_pos a). pose proof (pow2_pos b). nia.
+Qed.
+
+(* div / mod by the width *)
+Lemma div_lt_iff w j b : 0 < w -> (j / w < b <-> j < w * b).
+Proof.
+  intros Hw. pose proof (div_mod_eq j w). pose proof (mod_lt' j w Hw). split; intros; nia.
+Qed.
+
+Lemma div_le_iff w j a : 0 < w -> (a <= j / w <-> w * a <= j).
+Proof.
+  intros Hw. pose proof (div_mod_eq j w). pose proof (mod_lt' j w Hw). split; intros; nia.
+Qed.
+
+Lemma div_eq_iff w j k : 0 < w -> (j / w = k <-> w * k <= j /\ j < w * k + w).
+Proof.
+  intros Hw. pose proof (div_lt_iff w j (k + 1) Hw). pose proof (div_le_iff w j k Hw).
+  rewrite N.mul_add_distr_l, N.mul_1_r in *. lia.
+Qed.
+
+Lemma ltb_div w j b : 0 < w -> (j / w <? b) = (j <? w * b).
+Proof.
+  intros Hw. pose proof (div_lt_iff w j b Hw).
+  destruct (N.ltb_spec (j / w) b); destruct (N.ltb_spec j (w * b)); try reflexivity; lia.
+Qed.
+
+Lemma leb_div w j a : 0 < w -> (a <=? j / w) = (w * a <=? j).
+Proof.
+  intros Hw. pose proof (div_le_iff w j a Hw).
+  destruct (N.leb_spec a (j / w)); destruct (N.leb_spec (w * a) j); try reflexivity; lia.
+Qed.
+
+(* make a nonlinear term opaque for lia *)
+Ltac hide t := let x := fresh "x" in let E := fresh "E" in remember t as x eqn:E; clear E.
+
+(* ------------------------------------------------------------------ get / set *)
+
+Lemma v_get_spec P w v i :
+  0 < w -> canon_wv w v -> i < wl v -> v_get P w v i = Ok (N.b2n (N.testbit (raw w (wd v)) i)).
+Proof.
+  intros Hw (Hd & Hl & Hr) Hi. unfold v_get.
+  assert (dassert P (i <? wl v) = Ok tt) as ->.
+  { apply N.ltb_lt in Hi. destruct P; cbn; rewrite ?Hi; reflexivity. }
+  cbn [bind]. rewrite geto_ok by (apply div_lt_of_lt_mul; [assumption|lia]).
+  cbn [bind]. rewrite land_1_bit, shrw_testbit, N.add_0_l, raw_testbit by assumption. reflexivity.
+Qed.
+
+Lemma v_get_debug_oob w v i : wl v <= i -> v_get Debug w v i = Panic.
+Proof.
+  intros H. unfold v_get. cbn [dassert]. apply N.ltb_ge in H. rewrite H. reflexivity.
+Qed.
+
+(* the word written by set *)
+Lemma set_word_testbit w x k b m :
+  x < 2 ^ w -> k < w -> b <= 1 ->
+  N.testbit (N.lor (N.land x (notw w (shlw w 1 k))) (shlw w b k)) m =
+  if m =? k then (b =? 1) else N.testbit x m.
+Proof.
+  intros Hx Hk Hb.
+  rewrite N.lor_spec, N.land_spec, notw_testbit, !shlw_testbit, testbit_1, (testbit_bit b) by assumption.
+  destruct (N.ltb_spec m w) as [Hm|Hm].
+  - destruct (N.eqb_spec m k) as [->|Hne].
+    + rewrite N.leb_refl, N.sub_diag. cbn. rewrite andb_false_r, andb_true_r. reflexivity.
+    + destruct (N.leb_spec k m).
+      * assert (m - k =? 0 = false) as -> by (apply N.eqb_neq; lia).
+        cbn. rewrite !andb_false_r, andb_true_r. apply orb_false_r.
+      * cbn. rewrite andb_true_r. apply orb_false_r.
+  - rewrite (testbit_high x w m) by assumption. cbn.
+    destruct (N.eqb_spec m k); [lia|reflexivity].
+Qed.
+
+Lemma set_word_lt w x k b : x < 2 ^ w ->
+  N.lor (N.land x (notw w (shlw w 1 k))) (shlw w b k) < 2 ^ w.
+Proof.
+  intros Hx. apply lt_pow2_of_bits. intros i Hi.
+  rewrite N.lor_spec, N.land_spec, shlw_testbit, (testbit_high x w i) by assumption.
+  assert (i <? w = false) as -> by (apply N.ltb_ge; assumption). reflexivity.
+Qed.
+
+Lemma same_bit_iff w i j : 0 < w -> (j = i <-> j / w = i / w /\ j mod w = i mod w).
+Proof.
+  intros Hw. split; [intros ->; auto|]. intros [H1 H2].
+  rewrite (div_mod_eq j w), (div_mod_eq i w), H1, H2. reflexivity.
+Qed.
+
+Lemma v_set_spec P w v i b :
+  0 < w -> canon_wv w v -> i < wl v -> b <= 1 ->
+  exists v', v_set P w v i b = Ok v' /\ canon_wv w v' /\ wl v' = wl v /\ lenw (wd v') = lenw (wd v) /\
+    forall j, N.testbit (raw w (wd v')) j = if j =? i then (b =? 1) else N.testbit (raw w (wd v)) j.
+Proof.
+  intros Hw Hc Hi Hb. pose proof Hc as (Hd & Hl & Hr). unfold v_set.
+  assert (dassert P (i <? wl v) = Ok tt) as ->.
+  { apply N.ltb_lt in Hi. destruct P; cbn; rewrite ?Hi; reflexivity. }
+  assert (i / w < lenw (wd v)) as Hq by (apply div_lt_of_lt_mul; [assumption|lia]).
+  cbn [bind]. rewrite geto_ok by assumption. cbn [bind]. rewrite seto_ok by assumption. cbn [bind].
+  eexists. split; [reflexivity|]. cbn [wd wl].
+  set (x' := N.lor _ _).
+  assert (x' < 2 ^ w) as Hx' by (apply set_word_lt, getw_ok; assumption).
+  assert (words_ok w (setw (wd v) (i / w) x')) as Hd' by (apply words_ok_setw; assumption).
+  assert (forall j, N.testbit (raw w (setw (wd v) (i / w) x')) j =
+                    if j =? i then (b =? 1) else N.testbit (raw w (wd v)) j) as Hbits.
+  { intros j. rewrite !raw_testbit by assumption. rewrite getw_setw.
+    apply N.ltb_lt in Hq. rewrite Hq, andb_true_r.
+    pose proof (same_bit_iff w i j Hw) as Hs.
+    destruct (N.eqb_spec (i / w) (j / w)) as [Hqe|Hqe].
+    - unfold x'. rewrite set_word_testbit by (try apply getw_ok; try apply mod_lt'; assumption).
+      rewrite Hqe.
+      destruct (N.eqb_spec (j mod w) (i mod w)); destruct (N.eqb_spec j i); try reflexivity.
+      + exfalso. apply n. apply Hs. split; [symmetry|]; assumption.
+      + exfalso. apply n. subst. reflexivity.
+    - destruct (N.eqb_spec j i) as [->|]; [congruence|reflexivity]. }
+  split; [|split; [reflexivity|split; [apply lenw_setw|exact Hbits]]].
+  apply canon_of_bits; [assumption|rewrite lenw_setw; assumption|].
+  intros j Hj. rewrite Hbits. destruct (N.eqb_spec j i); [lia|].
+  apply (testbit_high _ (wl v)); assumption.
+Qed.
+
+Lemma v_set_debug_oob w v i b : wl v <= i -> v_set Debug w v i b = Panic.
+Proof.
+  intros H. unfold v_set. cbn [dassert]. apply N.ltb_ge in H. rewrite H. reflexivity.
+Qed.
+
+(* ------------------------------------------------------------------ zeros / ones *)
+
+Lemma f_zeros_spec w n len : len <= w * n ->
+  exists v, f_zeros w n len = Ok v /\ canon_wv w v /\ wl v = len /\ lenw (wd v) = n /\ raw w (wd v) = 0.
+Proof.
+  intros H. unfold f_zeros. apply N.leb_le in H. rewrite H. cbn [assert_ bind]. apply N.leb_le in H.
+  eexists. split; [reflexivity|]. cbn [wd wl].
+  split; [apply canon_zeros; assumption|]. split; [reflexivity|].
+  split; [apply lenw_zerosw|apply raw_zerosw].
+Qed.
+
+Lemma f_zeros_panics w n len : w * n < len -> f_zeros w n len = Panic.
+Proof. intros H. unfold f_zeros. apply N.leb_gt in H. rewrite H. reflexivity. Qed.
+
+Lemma lenw_app' d1 d2 : lenw (d1 ++ d2) = lenw d1 + lenw d2.
+Proof. unfold lenw. rewrite app_length. lia. Qed.
+
+Lemma lenw_repeat x k : lenw (repeat x k) = N.of_nat k.
+Proof. unfold lenw. rewrite repeat_length. reflexivity. Qed.
+
+Lemma words_ok_repeat w x k : x < 2 ^ w -> words_ok w (repeat x k).
+Proof. intros. apply Forall_repeat. assumption. Qed.
+
+Lemma raw_repeat_ones w k : raw w (repeat (wmax w) k) = N.ones (w * N.of_nat k).
+Proof.
+  induction k as [|k IH].
+  - cbn [repeat]. rewrite raw_nil. replace (w * N.of_nat 0) with 0 by lia. reflexivity.
+  - cbn [repeat]. rewrite raw_cons, IH. unfold wmax. rewrite ones_concat. f_equal. lia.
+Qed.
+
+Lemma ones_mod len m : len <= m -> N.ones m mod 2 ^ len = N.ones len.
+Proof.
+  intros H. apply N.bits_inj. intro j. rewrite mod_pow2_testbit, !ones_testbit.
+  destruct (N.ltb_spec j len); destruct (N.ltb_spec j m); try reflexivity; lia.
+Qed.
+
+Lemma f_ones_spec w n len : 0 < w -> len <= w * n ->
+  exists v, f_ones w n len = Ok v /\ canon_wv w v /\ wl v = len /\ lenw (wd v) = n /\ raw w (wd v) = N.ones len.
+Proof.
+  intros Hw H. unfold f_ones. apply N.leb_le in H. rewrite H. cbn [assert_ bind]. apply N.leb_le in H.
+  eexists. split; [reflexivity|]. cbn [wd wl].
+  assert (words_ok w (repeat (wmax w) (N.to_nat n))) as Hd by (apply words_ok_repeat, wmax_lt).
+  assert (raw w (mod2n w (repeat (wmax w) (N.to_nat n)) len) = N.ones len) as Hr.
+  { rewrite raw_mod2n, raw_repeat_ones by assumption. apply ones_mod. lia. }
+  assert (lenw (mod2n w (repeat (wmax w) (N.to_nat n)) len) = n) as Hl.
+  { rewrite lenw_mod2n, lenw_repeat. lia. }
+  split; [|split; [reflexivity|split; assumption]].
+  unfold canon_wv. cbn [wd wl]. rewrite Hr, Hl.
+  split; [apply words_ok_mod2n; assumption|]. split; [assumption|apply ones_lt].
+Qed.
+
+Lemma f_ones_panics w n len : w * n < len -> f_ones w n len = Panic.
+Proof. intros H. unfold f_ones. apply N.leb_gt in H. rewrite H. reflexivity. Qed.
+
+Lemma d_zeros_spec len : canon_wv 64 (d_zeros len) /\ wl (d_zeros len) = len /\ raw 64 (wd (d_zeros len)) = 0
+                         /\ lenw (wd (d_zeros len)) = cfbl_d len.
+Proof.
+  unfold d_zeros. cbn [wd wl].
+  split; [apply canon_zeros, cfbl_d_ge|]. split; [reflexivity|].
+  split; [apply raw_zerosw|apply lenw_zerosw].
+Qed.
+
+Lemma upd_last_snoc f l x : upd_last f (l ++ [x]) = l ++ [f x].
+Proof.
+  induction l as [|y r IH]; [reflexivity|].
+  cbn [app]. cbn [upd_last]. rewrite IH.
+  destruct (r ++ [x]) eqn:E; [destruct r; discriminate|reflexivity].
+Qed.
+
+Lemma upd_last_repeat f x k : upd_last f (repeat x (S k)) = repeat x k ++ [f x].
+Proof. cbn [repeat]. rewrite repeat_cons. apply upd_last_snoc. Qed.
+
+Lemma d_ones_spec len : canon_wv 64 (d_ones len) /\ wl (d_ones len) = len /\ raw 64 (wd (d_ones len)) = N.ones len
+                        /\ lenw (wd (d_ones len)) = cfbl_d len.
+Proof.
+  unfold d_ones, W64. cbn [wd wl].
+  set (d := upd_last _ _).
+  assert (words_ok 64 d /\ lenw d = cfbl_d len /\ raw 64 d = N.ones len) as (Hd & Hl & Hr).
+  { unfold d. clear d. destruct (N.eq_dec len 0) as [->|Hne].
+    - change (N.to_nat (cfbl_d 0)) with O. cbn [repeat upd_last].
+      split; [constructor|]. split; reflexivity.
+    - assert (cfbl_d len = (len - 1) / 64 + 1) as Hc by (rewrite cfbl_d_eq'; lia).
+      replace (N.to_nat (cfbl_d len)) with (S (N.to_nat ((len - 1) / 64))) by lia.
+      rewrite upd_last_repeat.
+      assert (lastbits 64 len = (len - 1) mod 64 + 1) as ->.
+      { unfold lastbits, wsub1. destruct (N.eqb_spec len 0); [contradiction|reflexivity]. }
+      assert (N.land (wmax 64) (maskw 64 ((len - 1) mod 64 + 1)) = N.ones ((len - 1) mod 64 + 1)) as ->.
+      { rewrite maskw_eq, N.min_l by lia. unfold wmax. rewrite N.land_comm, N.land_ones.
+        apply N.mod_small. eapply N.lt_le_trans; [apply ones_lt|]. apply pow2_le. lia. }
+      split; [|split].
+      + apply words_ok_app; [apply words_ok_repeat, wmax_lt|].
+        constructor; [|constructor]. eapply N.lt_le_trans; [apply ones_lt|]. apply pow2_le. lia.
+      + rewrite lenw_app', lenw_repeat, Hc. unfold lenw. cbn [length]. lia.
+      + rewrite raw_app by lia. rewrite raw_repeat_ones, lenw_repeat, raw_cons, raw_nil, N.mul_0_r, N.add_0_r.
+        rewrite ones_concat. f_equal. lia. }
+  split; [|split; [reflexivity|split; assumption]].
+  unfold canon_wv. cbn [wd wl]. rewrite Hl, Hr.
+  split; [assumption|]. split; [apply cfbl_d_ge|apply ones_lt].
+Qed.
+
+(* ------------------------------------------------------------------ reserve / shrink_to_fit *)
+
+Lemma d_reserve_spec v k :
+  canon_wv 64 v ->
+  canon_wv 64 (d_reserve v k) /\ wl (d_reserve v k) = wl v /\ raw 64 (wd (d_reserve v k)) = raw 64 (wd v) /\
+  wl v + k <= 64 * lenw (wd (d_reserve v k)) /\ lenw (wd v) <= lenw (wd (d_reserve v k)).
+Proof.
+  intros (Hd & Hl & Hr). unfold d_reserve.
+  pose proof (cfbl_d_ge (wl v + k)) as Hc.
+  destruct (N.ltb_spec (lenw (wd v)) (cfbl_d (wl v + k))) as [Hlt|Hge]; cbn [wd wl].
+  - rewrite raw_app_zeros by lia. rewrite lenw_app', lenw_zerosw.
+    split; [|split; [reflexivity|split; [reflexivity|split; lia]]].
+    unfold canon_wv. cbn [wd wl]. rewrite raw_app_zeros by lia. rewrite lenw_app', lenw_zerosw.
+    split; [apply words_ok_app; [assumption|apply words_ok_zerosw]|]. split; [lia|assumption].
+  - split; [repeat split; assumption|]. split; [reflexivity|]. split; [reflexivity|]. split; lia.
+Qed.
+
+Lemma raw_firstn w d k len :
+  0 < w -> raw w d < 2 ^ len -> len <= w * N.of_nat k -> (k <= length d)%nat -> raw w (firstn k d) = raw w d.
+Proof.
+  intros Hw Hr Hl Hk. rewrite <- (firstn_skipn k d) at 2. rewrite raw_app by assumption.
+  assert (lenw (firstn k d) = N.of_nat k) as El by (unfold lenw; rewrite firstn_length; lia).
+  rewrite El.
+  destruct (N.eq_dec (raw w (skipn k d)) 0) as [->|Hne]; [lia|exfalso].
+  rewrite <- (firstn_skipn k d), raw_app, El in Hr by assumption.
+  pose proof (pow2_le len (w * N.of_nat k) Hl). pose proof (pow2_pos (w * N.of_nat k)). nia.
+Qed.
+
+Lemma d_shrink_spec v :
+  canon_wv 64 v ->
+  canon_wv 64 (d_shrink_to_fit v) /\ wl (d_shrink_to_fit v) = wl v /\
+  raw 64 (wd (d_shrink_to_fit v)) = raw 64 (wd v) /\ lenw (wd (d_shrink_to_fit v)) <= lenw (wd v) /\
+  (cfbl_d (wl v) <= lenw (wd v) -> lenw (wd (d_shrink_to_fit v)) = cfbl_d (wl v)).
+Proof.
+  intros (Hd & Hl & Hr). unfold d_shrink_to_fit.
+  pose proof (cfbl_d_ge (wl v)) as Hc. pose proof (cfbl_d_le (wl v) _ Hl) as Hc'.
+  destruct (N.ltb_spec (cfbl_d (wl v)) (lenw (wd v))) as [Hlt|Hge]; cbn [wd wl].
+  - set (k := N.to_nat (cfbl_d (wl v))).
+    assert (lenw (firstn k (wd v)) = cfbl_d (wl v)) as El.
+    { unfold lenw in *. rewrite firstn_length. lia. }
+    assert (raw 64 (firstn k (wd v)) = raw 64 (wd v)) as Er.
+    { apply (raw_firstn 64 _ _ (wl v)); [lia|assumption|lia|unfold lenw in *; lia]. }
+    rewrite El, Er.
+    split; [|split; [reflexivity|split; [reflexivity|split; [lia|reflexivity]]]].
+    unfold canon_wv. cbn [wd wl]. rewrite El, Er.
+    split; [|split; assumption].
+    unfold words_ok in *. rewrite <- (firstn_skipn k (wd v)) in Hd. apply Forall_app in Hd. apply Hd.
+  - split; [repeat split; assumption|]. split; [reflexivity|]. split; [reflexivity|]. split; lia.
+Qed.
+
+(* ------------------------------------------------------------------ push / pop *)
+
+Lemma push_core P w v b :
+  0 < w -> canon_wv w v -> b <= 1 -> wl v < w * lenw (wd v) ->
+  exists v', v_set P w (mkwv (wd v) (wl v + 1)) (wl v) b = Ok v' /\ canon_wv w v' /\ wl v' = wl v + 1 /\
+    lenw (wd v') = lenw (wd v) /\ raw w (wd v') = raw w (wd v) + b * 2 ^ wl v.
+Proof.
+  intros Hw (Hd & Hl & Hr) Hb Hcap.
+  assert (canon_wv w (mkwv (wd v) (wl v + 1))) as Hc1.
+  { unfold canon_wv. cbn [wd wl]. split; [assumption|]. split; [lia|].
+    eapply N.lt_le_trans; [exact Hr|]. apply pow2_le. lia. }
+  destruct (v_set_spec P w (mkwv (wd v) (wl v + 1)) (wl v) b Hw Hc1) as (v' & E & Hc' & Hl' & Hn' & Hbits);
+    [cbn [wl]; lia|assumption|].
+  cbn [wd wl] in *. exists v'. split; [exact E|]. split; [assumption|]. split; [assumption|].
+  split; [assumption|].
+  apply N.bits_inj. intro j. rewrite Hbits, (N.mul_comm b), concat_testbit by assumption.
+  rewrite (testbit_bit b) by assumption.
+  destruct (N.eqb_spec j (wl v)) as [->|Hne].
+  - rewrite N.ltb_irrefl, N.sub_diag. cbn. rewrite andb_true_r. reflexivity.
+  - destruct (N.ltb_spec j (wl v)); [reflexivity|].
+    rewrite (testbit_high _ (wl v) j) by assumption.
+    assert (j - wl v =? 0 = false) as -> by (apply N.eqb_neq; lia).
+    rewrite andb_false_r. reflexivity.
+Qed.
+
+Lemma f_push_spec P w v b :
+  0 < w -> canon_wv w v -> b <= 1 -> wl v < w * lenw (wd v) ->
+  exists v', f_push P w v b = Ok v' /\ canon_wv w v' /\ wl v' = wl v + 1 /\ lenw (wd v') = lenw (wd v) /\
+    raw w (wd v') = raw w (wd v) + b * 2 ^ wl v.
+Proof.
+  intros Hw Hc Hb Hcap. unfold f_push, capw.
+  apply N.ltb_lt in Hcap. rewrite Hcap. apply N.ltb_lt in Hcap. cbn [assert_ bind].
+  apply push_core; assumption.
+Qed.
+
+Lemma f_push_full_panics P w v b : w * lenw (wd v) <= wl v -> f_push P w v b = Panic.
+Proof. intros H. unfold f_push, capw. apply N.ltb_ge in H. rewrite H. reflexivity. Qed.
+
+Lemma d_push_spec P v b :
+  canon_wv 64 v -> b <= 1 ->
+  exists v', d_push P v b = Ok v' /\ canon_wv 64 v' /\ wl v' = wl v + 1 /\
+    raw 64 (wd v') = raw 64 (wd v) + b * 2 ^ wl v.
+Proof.
+  intros Hc Hb. unfold d_push, W64.
+  destruct (d_reserve_spec v 1 Hc) as (Hc1 & Hl1 & Hr1 & Hcap & Hn1).
+  destruct (push_core P 64 (d_reserve v 1) b) as (v' & E & Hc' & Hl' & Hn' & Hr'); try assumption; try lia.
+  exists v'. split; [exact E|]. split; [assumption|]. split; [lia|]. rewrite Hr', Hr1, Hl1. reflexivity.
+Qed.
+
+Lemma v_pop_spec P w v :
+  0 < w -> canon_wv w v ->
+  exists v' o, v_pop P w v = Ok (v', o) /\ canon_wv w v' /\ lenw (wd v') = lenw (wd v) /\
+    (wl v = 0 -> v' = v /\ o = None) /\
+    (0 < wl v -> wl v' = wl v - 1 /\ raw w (wd v') = raw w (wd v) mod 2 ^ (wl v - 1) /\
+                 o = Some (N.b2n (N.testbit (raw w (wd v)) (wl v - 1)))).
+Proof.
+  intros Hw Hc. unfold v_pop. destruct (N.eqb_spec (wl v) 0) as [Hz|Hnz].
+  - exists v, None. split; [reflexivity|]. split; [assumption|]. split; [reflexivity|].
+    split; [auto|lia].
+  - rewrite v_get_spec by (assumption || lia). cbn [bind].
+    destruct (v_set_spec P w v (wl v - 1) 0 Hw Hc) as (v' & E & Hc' & Hl' & Hn' & Hbits); [lia|lia|].
+    rewrite E. cbn [bind].
+    eexists _, _. split; [reflexivity|]. cbn [wd wl].
+    destruct Hc' as (Hd' & Hcap' & Hr').
+    assert (raw w (wd v') = raw w (wd v) mod 2 ^ (wl v - 1)) as Er.
+    { apply N.bits_inj. intro j. rewrite Hbits, mod_pow2_testbit.
+      destruct (N.eqb_spec j (wl v - 1)) as [->|Hne].
+      - rewrite N.ltb_irrefl. reflexivity.
+      - destruct (N.ltb_spec j (wl v - 1)); [reflexivity|].
+        apply (canon_raw_high w v); [assumption|lia]. }
+    split; [|split; [assumption|split; [lia|intros _; split; [reflexivity|split; [assumption|reflexivity]]]]].
+    unfold canon_wv. cbn [wd wl]. split; [assumption|]. split; [lia|].
+    rewrite Er. apply N.mod_lt, pow2_ne0.
+Qed.
+
+(* ------------------------------------------------------------------ resize *)
+
+Lemma land_lt w x m : x < 2 ^ w -> N.land x m < 2 ^ w.
+Proof.
+  intros Hx. apply lt_pow2_of_bits. intros i Hi.
+  rewrite N.land_spec, (testbit_high x w i) by assumption. reflexivity.
+Qed.
+
+Lemma lor_lt w x y : x < 2 ^ w -> y < 2 ^ w -> N.lor x y < 2 ^ w.
+Proof.
+  intros Hx Hy. apply lt_pow2_of_bits. intros i Hi.
+  rewrite N.lor_spec, (testbit_high x w i), (testbit_high y w i) by assumption. reflexivity.
+Qed.
+
+Definition signw (w b : N) : N := if b =? 0 then 0 else wmax w.
+
+Lemma signw_lt w b : signw w b < 2 ^ w.
+Proof. unfold signw. destruct (b =? 0); [apply pow2_pos|apply wmax_lt]. Qed.
+
+Lemma signw_testbit w b r : N.testbit (signw w b) r = negb (b =? 0) && (r <? w).
+Proof.
+  unfold signw, wmax. destruct (b =? 0); cbn [negb andb]; [apply N.bits_0|apply ones_testbit].
+Qed.
+
+(* one word replaced *)
+Lemma upd_word_bits w d k f j :
+  0 < w -> words_ok w d -> k < lenw d -> f (getw d k) < 2 ^ w ->
+  N.testbit (raw w (upd_at d k f)) j =
+  if j / w =? k then N.testbit (f (getw d k)) (j mod w) else N.testbit (raw w d) j.
+Proof.
+  intros Hw Hd Hk Hf.
+  rewrite !raw_testbit by (try apply words_ok_upd_at; assumption).
+  rewrite getw_upd_at. apply N.ltb_lt in Hk. rewrite Hk, andb_true_r.
+  rewrite (N.eqb_sym k). destruct (j / w =? k); reflexivity.
+Qed.
+
+(* words a .. b-1 overwritten with c *)
+Lemma fill_words_ok w d a b c :
+  words_ok w d -> c < 2 ^ w -> words_ok w (mapi (fun i x => if (a <=? i) && (i <? b) then c else x) d).
+Proof.
+  intros Hd Hc. apply words_ok_mapi. intros i Hi.
+  destruct ((a <=? i) && (i <? b)); [assumption|apply getw_ok; assumption].
+Qed.
+
+Lemma fill_bits w d a b c j :
+  0 < w -> words_ok w d -> c < 2 ^ w ->
+  N.testbit (raw w (mapi (fun i x => if (a <=? i) && (i <? b) then c else x) d)) j =
+  if (w * a <=? j) && (j <? w * b) && (j <? w * lenw d) then N.testbit c (j mod w) else N.testbit (raw w d) j.
+Proof.
+  intros Hw Hd Hc.
+  rewrite !raw_testbit by (try apply fill_words_ok; assumption).
+  rewrite <- !ltb_div, <- leb_div by assumption.
+  destruct (N.ltb_spec (j / w) (lenw d)) as [Hlt|Hge].
+  - rewrite getw_mapi by assumption. rewrite andb_true_r.
+    destruct ((a <=? j / w) && (j / w <? b)); reflexivity.
+  - rewrite getw_mapi_high, getw_high by assumption. rewrite andb_false_r. reflexivity.
+Qed.
+
+(* bits n .. end of the word containing n cleared *)
+Lemma mask_bits w d n j :
+  0 < w -> words_ok w d ->
+  N.testbit (raw w (upd_at d (n / w) (fun l => N.land l (maskw w (n mod w))))) j =
+  if (n <=? j) && (j <? w * (n / w) + w) then false else N.testbit (raw w d) j.
+Proof.
+  intros Hw Hd.
+  pose proof (div_mod_eq n w) as En. pose proof (mod_lt' n w Hw) as Hn.
+  pose proof (div_mod_eq j w) as Ej. pose proof (mod_lt' j w Hw) as Hj.
+  destruct (N.lt_ge_cases (n / w) (lenw d)) as [Hlt|Hge].
+  - rewrite upd_word_bits by (try apply land_lt, getw_ok; assumption).
+    destruct (N.eqb_spec (j / w) (n / w)) as [He|Hne].
+    + rewrite N.land_spec, maskw_testbit, raw_testbit, He by assumption.
+      rewrite He in Ej. clear He Hlt Hd. hide (w * (n / w)). hide (j mod w). hide (n mod w).
+      hide (N.testbit (getw d (n / w)) x0).
+      destruct (N.ltb_spec x0 x1); destruct (N.ltb_spec x0 w);
+        destruct (N.leb_spec n j); destruct (N.ltb_spec j (x + w)); cbn [andb]; try lia;
+        rewrite ?andb_true_r, ?andb_false_r; reflexivity.
+    + pose proof (div_eq_iff w j (n / w) Hw) as Hiff.
+      destruct (N.leb_spec n j); destruct (N.ltb_spec j (w * (n / w) + w)); cbn [andb]; try reflexivity.
+      exfalso. apply Hne, Hiff. lia.
+  - unfold upd_at. assert (n / w <? lenw d = false) as -> by (apply N.ltb_ge; assumption).
+    destruct (N.leb_spec n j); cbn [andb]; [|reflexivity].
+    apply (div_le_iff w n (lenw d) Hw) in Hge.
+    rewrite (testbit_high (raw w d) (w * lenw d) j); [destruct (j <? _); reflexivity|apply raw_lt; assumption|lia].
+Qed.
+
+Lemma mask_words_ok w d n :
+  words_ok w d -> words_ok w (upd_at d (n / w) (fun l => N.land l (maskw w (n mod w)))).
+Proof. intros Hd. apply words_ok_upd_at; [assumption|]. apply land_lt, getw_ok. assumption. Qed.
+
+(* bits len .. end of the word containing len or-ed with the sign *)
+Lemma or_bits_spec w d len b j :
+  0 < w -> words_ok w d -> len / w < lenw d ->
+  N.testbit (raw w (upd_at d (len / w)
+                      (fun l => N.lor l (N.land (signw w b) (notw w (maskw w (len mod w))))))) j =
+  N.testbit (raw w d) j || (negb (b =? 0) && (len <=? j) && (j <? w * (len / w) + w)).
+Proof.
+  intros Hw Hd Hlt.
+  pose proof (div_mod_eq len w) as En. pose proof (mod_lt' len w Hw) as Hn.
+  pose proof (div_mod_eq j w) as Ej. pose proof (mod_lt' j w Hw) as Hj.
+  rewrite upd_word_bits; try assumption.
+  2:{ apply lor_lt; [apply getw_ok; assumption|]. apply land_lt, signw_lt. }
+  destruct (N.eqb_spec (j / w) (len / w)) as [He|Hne].
+  - rewrite N.lor_spec, N.land_spec, signw_testbit, notw_testbit, maskw_testbit, raw_testbit, He by assumption.
+    rewrite He in Ej. f_equal. clear He Hlt Hd. hide (w * (len / w)). hide (j mod w). hide (len mod w).
+    destruct (N.ltb_spec x0 x1); destruct (N.ltb_spec x0 w);
+      destruct (N.leb_spec len j); destruct (N.ltb_spec j (x + w)); cbn [andb xorb]; try lia;
+      rewrite ?andb_true_r, ?andb_false_r; reflexivity.
+  - pose proof (div_eq_iff w j (len / w) Hw) as Hiff.
+    destruct (N.leb_spec len j); destruct (N.ltb_spec j (w * (len / w) + w));
+      rewrite ?andb_false_r; cbn [andb]; rewrite ?andb_false_r, ?orb_false_r; try reflexivity.
+    exfalso. apply Hne, Hiff. lia.
+Qed.
+
+Lemma or_words_ok w d len b :
+  words_ok w d ->
+  words_ok w (upd_at d (len / w) (fun l => N.lor l (N.land (signw w b) (notw w (maskw w (len mod w)))))).
+Proof.
+  intros Hd. apply words_ok_upd_at; [assumption|].
+  apply lor_lt; [apply getw_ok; assumption|]. apply land_lt, signw_lt.
+Qed.
+
+Lemma cfbl_f_ge w n : 0 < w -> n <= w * cfbl_f w n.
+Proof. intros Hw. apply (ceil_div_spec n w Hw). apply N.le_refl. Qed.
+
+Lemma cfbl_f_le w n q : 0 < w -> n <= w * q -> cfbl_f w n <= q.
+Proof. intros Hw H. apply (ceil_div_spec n w Hw). assumption. Qed.
+
+(* the storage after a truncating resize *)
+Definition sh_list (w : N) (d : list N) (n c : N) : list N :=
+  upd_at (mapi (fun i x => if (n / w + 1 <=? i) && (i <? c) then 0 else x) d)
+         (n / w) (fun l => N.land l (maskw w (n mod w))).
+
+Lemma shrink_core w d len n :
+  0 < w -> words_ok w d -> len <= w * lenw d -> raw w d < 2 ^ len -> n < len ->
+  words_ok w (sh_list w d n (cfbl_f w len)) /\ lenw (sh_list w d n (cfbl_f w len)) = lenw d /\
+  raw w (sh_list w d n (cfbl_f w len)) = raw w d mod 2 ^ n.
+Proof.
+  intros Hw Hd Hcap Hr Hn. unfold sh_list.
+  split; [apply mask_words_ok, fill_words_ok; [assumption|apply pow2_pos]|].
+  split; [rewrite lenw_upd_at, lenw_mapi; reflexivity|].
+  apply N.bits_inj. intro j.
+  rewrite mask_bits by (try apply fill_words_ok; try apply pow2_pos; assumption).
+  rewrite fill_bits by (try apply pow2_pos; assumption).
+  rewrite mod_pow2_testbit, N.bits_0.
+  pose proof (cfbl_f_ge w len Hw) as Hc.
+  pose proof (div_mod_eq n w) as En. pose proof (mod_lt' n w Hw) as Hnm.
+  rewrite N.mul_add_distr_l, N.mul_1_r.
+  assert (len <= j -> N.testbit (raw w d) j = false) as Hhigh by (intros; apply (testbit_high _ len); assumption).
+  generalize dependent (n mod w). intros nr En Hnm.
+  generalize dependent (w * (n / w)). intros A En.
+  generalize dependent (w * cfbl_f w len). intros C Hc.
+  generalize dependent (w * lenw d). intros L Hcap.
+  generalize dependent (N.testbit (raw w d) j). intros tb Hhigh. clear Hr Hd.
+  destruct (N.leb_spec n j); destruct (N.ltb_spec j (A + w)); destruct (N.leb_spec (A + w) j);
+    destruct (N.ltb_spec j C); destruct (N.ltb_spec j L); destruct (N.ltb_spec j n);
+    cbn [andb]; try lia; try reflexivity; first [apply Hhigh; lia | symmetry; apply Hhigh; lia].
+Qed.
+
+(* the storage after a growing resize *)
+Definition gr_list (w : N) (d : list N) (len n c b : N) : list N :=
+  upd_at (mapi (fun i x => if (len / w + 1 <=? i) && (i <? c) then signw w b else x)
+               (upd_at d (len / w) (fun l => N.lor l (N.land (signw w b) (notw w (maskw w (len mod w)))))))
+         (n / w) (fun l => N.land l (maskw w (n mod w))).
+
+Lemma grow_bits w d len n b j :
+  0 < w -> words_ok w d -> raw w d < 2 ^ len -> len < n -> n <= w * lenw d ->
+  N.testbit (raw w (gr_list w d len n (cfbl_f w n) b)) j =
+  if j <? len then N.testbit (raw w d) j else negb (b =? 0) && (j <? n).
+Proof.
+  intros Hw Hd Hr Hlen Hcap. unfold gr_list.
+  assert (len / w < lenw d) as Hlq by (apply div_lt_iff; [assumption|lia]).
+  rewrite mask_bits by (try apply fill_words_ok; try apply or_words_ok; try apply signw_lt; assumption).
+  rewrite fill_bits by (try apply or_words_ok; try apply signw_lt; assumption).
+  rewrite or_bits_spec by assumption. rewrite signw_testbit, lenw_upd_at.
+  pose proof (cfbl_f_ge w n Hw) as Hc1.
+  pose proof (cfbl_f_le w n (lenw d) Hw Hcap) as Hc2.
+  pose proof (div_mod_eq n w) as En. pose proof (mod_lt' n w Hw) as Hnm.
+  pose proof (div_mod_eq len w) as El. pose proof (mod_lt' len w Hw) as Hlm.
+  assert (cfbl_f w n <= n / w + 1) as Hc3.
+  { apply cfbl_f_le; [assumption|]. lia. }
+  assert (w * (len / w) = w * (n / w) \/ w * (len / w) + w <= w * (n / w)) as HAB.
+  { assert (len / w <= n / w) as Hle by (apply N.div_le_mono; lia).
+    destruct (N.eq_dec (len / w) (n / w)) as [->|Hne]; [left; reflexivity|right].
+    assert (len / w + 1 <= n / w) as Hle' by lia.
+    apply (N.mul_le_mono_l _ _ w) in Hle'. lia. }
+  apply (N.mul_le_mono_l _ _ w) in Hc2. apply (N.mul_le_mono_l _ _ w) in Hc3.
+  pose proof (mod_lt' j w Hw) as Hjm. apply N.ltb_lt in Hjm. rewrite Hjm, andb_true_r. clear Hjm.
+  rewrite !N.mul_add_distr_l, !N.mul_1_r in *.
+  assert (len <= j -> N.testbit (raw w d) j = false) as Hhigh by (intros; apply (testbit_high _ len); assumption).
+  clear Hlq Hd Hr.
+  hide (n mod w). hide (len mod w). hide (w * (n / w)). hide (w * (len / w)).
+  hide (w * cfbl_f w n). hide (w * lenw d). hide (N.testbit (raw w d) j).
+  rename x1 into A, x2 into B, x3 into C, x4 into L, x5 into tb.
+  destruct (N.ltb_spec j len) as [Hjl|Hjl].
+  - assert (n <=? j = false) as -> by (apply N.leb_gt; lia).
+    assert (B + w <=? j = false) as -> by (apply N.leb_gt; lia).
+    assert (len <=? j = false) as -> by (apply N.leb_gt; lia).
+    cbn [andb]. rewrite andb_false_r. apply orb_false_r.
+  - rewrite (Hhigh Hjl). cbn [orb].
+    assert (len <=? j = true) as -> by (apply N.leb_le; assumption). rewrite andb_true_r.
+    destruct (b =? 0); cbn [negb andb].
+    + destruct ((n <=? j) && (j <? A + w)); [reflexivity|].
+      destruct ((B + w <=? j) && (j <? C) && (j <? L)); reflexivity.
+    + destruct (N.ltb_spec j n) as [Hjn|Hjn].
+      * assert (n <=? j = false) as -> by (apply N.leb_gt; lia). cbn [andb].
+        destruct (N.leb_spec (B + w) j).
+        -- assert (j <? C = true) as -> by (apply N.ltb_lt; lia).
+           assert (j <? L = true) as -> by (apply N.ltb_lt; lia). reflexivity.
+        -- cbn [andb]. apply N.ltb_lt. assumption.
+      * assert (n <=? j = true) as -> by (apply N.leb_le; lia). cbn [andb].
+        destruct (N.ltb_spec j (A + w)); [reflexivity|].
+        assert (j <? C = false) as -> by (apply N.ltb_ge; lia).
+        rewrite andb_false_r. apply N.ltb_ge. lia.
+Qed.
+
+Lemma grow_core w d len n b :
+  0 < w -> words_ok w d -> raw w d < 2 ^ len -> len < n -> n <= w * lenw d ->
+  words_ok w (gr_list w d len n (cfbl_f w n) b) /\ lenw (gr_list w d len n (cfbl_f w n) b) = lenw d /\
+  raw w (gr_list w d len n (cfbl_f w n) b) = raw w d + (if b =? 0 then 0 else 2 ^ n - 2 ^ len).
+Proof.
+  intros Hw Hd Hr Hlen Hcap.
+  split; [unfold gr_list; apply mask_words_ok, fill_words_ok; [apply or_words_ok; assumption|apply signw_lt]|].
+  split; [unfold gr_list; rewrite lenw_upd_at, lenw_mapi, lenw_upd_at; reflexivity|].
+  apply N.bits_inj. intro j. rewrite grow_bits by assumption.
+  assert ((if b =? 0 then 0 else 2 ^ n - 2 ^ len) = 2 ^ len * (if b =? 0 then 0 else N.ones (n - len))) as ->.
+  { destruct (b =? 0); [lia|]. rewrite ones_eq, (pow2_split len n) by lia. pose proof (pow2_pos (n - len)). nia. }
+  rewrite concat_testbit by assumption.
+  destruct (N.ltb_spec j len); [reflexivity|].
+  destruct (b =? 0); cbn [negb andb]; [rewrite N.bits_0; reflexivity|].
+  rewrite ones_testbit.
+  destruct (N.ltb_spec j n); destruct (N.ltb_spec (j - len) (n - len)); try reflexivity; lia.
+Qed.
+
+Lemma cfbl_sel fixed w x : (fixed = false -> w = 64) -> (if fixed then cfbl_f w else cfbl_d) x = cfbl_f w x.
+Proof. intros H. destruct fixed; [reflexivity|]. rewrite H by reflexivity. apply cfbl_d_f. Qed.
+
+(* resize: truncation or extension with fill bit b *)
+Lemma v_resize_spec fixed w v n b :
+  0 < w -> (fixed = false -> w = 64) -> canon_wv w v -> b <= 1 ->
+  (fixed = true -> n <= w * lenw (wd v)) ->
+  exists v', v_resize fixed w v n b = Ok v' /\ canon_wv w v' /\ wl v' = n /\
+    (fixed = true -> lenw (wd v') = lenw (wd v)) /\ lenw (wd v) <= lenw (wd v') /\
+    raw w (wd v') = (if n <? wl v then raw w (wd v) mod 2 ^ n
+                     else raw w (wd v) + (if b =? 0 then 0 else 2 ^ n - 2 ^ wl v)).
+Proof.
+  intros Hw Hfw Hc Hb Hfix. pose proof Hc as (Hd & Hcap & Hr).
+  unfold v_resize. cbv zeta. rewrite !cfbl_sel by assumption.
+  destruct (N.ltb_spec n (wl v)) as [Hlt|Hge].
+  - (* truncation *)
+    rewrite fill_range_ok by (left; apply cfbl_f_le; assumption). cbn [bind].
+    destruct (shrink_core w (wd v) (wl v) n Hw Hd Hcap Hr Hlt) as (Hd' & Hl' & Hr').
+    unfold sh_list in *.
+    eexists. split; [reflexivity|]. cbn [wd wl].
+    split; [|split; [reflexivity|split; [intros _; exact Hl'|split; [rewrite Hl'; apply N.le_refl|exact Hr']]]].
+    unfold canon_wv. cbn [wd wl]. rewrite Hl', Hr'.
+    split; [assumption|]. split; [|apply N.mod_lt, pow2_ne0].
+    lia.
+  - destruct (N.ltb_spec (wl v) n) as [Hgt|Heq].
+    + (* extension *)
+      assert (exists v0, (if fixed then (let! _ := assert_ (n <=? capw w (wd v)) in Ok v)
+                          else Ok (d_reserve v (n - wl v))) = Ok v0 /\
+                words_ok w (wd v0) /\ raw w (wd v0) = raw w (wd v) /\ n <= w * lenw (wd v0) /\
+                lenw (wd v) <= lenw (wd v0) /\ (fixed = true -> lenw (wd v0) = lenw (wd v)))
+        as (v0 & -> & Hd0 & Hr0 & Hcap0 & Hmono & Hsame).
+      { destruct fixed.
+        - exists v. unfold capw. specialize (Hfix eq_refl). apply N.leb_le in Hfix. rewrite Hfix.
+          apply N.leb_le in Hfix. cbn [assert_ bind]. repeat split; try assumption; lia.
+        - exists (d_reserve v (n - wl v)). split; [reflexivity|].
+          rewrite (Hfw eq_refl) in *.
+          destruct (d_reserve_spec v (n - wl v) Hc) as ((Hd0 & _ & _) & Hl0 & Hr0 & Hcap0 & Hmono).
+          repeat split; try assumption; try lia. }
+      cbn [bind]. fold (signw w b).
+      destruct (grow_core w (wd v0) (wl v) n b Hw Hd0) as (Hd' & Hl' & Hr'); [rewrite Hr0; assumption|assumption|assumption|].
+      rewrite fill_range_ok by (left; rewrite lenw_upd_at; apply cfbl_f_le; assumption). cbn [bind].
+      unfold gr_list in *.
+      eexists. split; [reflexivity|]. cbn [wd wl].
+      split; [|split; [reflexivity|split; [intros Hf; rewrite Hl'; apply Hsame; assumption|split; [rewrite Hl'; assumption|rewrite Hr', Hr0; reflexivity]]]].
+      apply canon_of_bits; [assumption|rewrite Hl'; assumption|].
+      intros j Hj. pose proof (grow_bits w (wd v0) (wl v) n b j Hw Hd0) as Hbits. unfold gr_list in Hbits.
+      rewrite Hbits by (rewrite ?Hr0; assumption).
+      assert (j <? wl v = false) as -> by (apply N.ltb_ge; lia).
+      assert (j <? n = false) as -> by (apply N.ltb_ge; lia). apply andb_false_r.
+    + (* same length *)
+      assert (n = wl v) as -> by lia.
+      exists v. split; [reflexivity|]. split; [assumption|]. split; [reflexivity|].
+      split; [reflexivity|]. split; [apply N.le_refl|].
+      destruct (b =? 0); lia.
+Qed.
+
+Lemma f_resize_overflow_panics w v n b :
+  wl v < n -> w * lenw (wd v) < n -> v_resize true w v n b = Panic.
+Proof.
+  intros H1 H2. unfold v_resize. cbv zeta.
+  assert (n <? wl v = false) as -> by (apply N.ltb_ge; lia).
+  apply N.ltb_lt in H1. rewrite H1. unfold capw. apply N.leb_gt in H2. rewrite H2. reflexivity.
+Qed.
